@@ -692,7 +692,7 @@ class Companion(object):
         env['PYTHONPYCACHEPREFIX'] = os.path.join(core.VERIF_DIR, '.no-pycache')
         env['PYTHONDONTWRITEBYTECODE'] = '1'
         self.hashseed = hashseed
-        self.proc = subprocess.Popen([core.PYTHON, '-B', os.path.join(core.SIM_DIR, 'oracle.py')],
+        self.proc = subprocess.Popen(core.no_aslr_prefix() + [core.PYTHON, '-B', os.path.join(core.SIM_DIR, 'oracle.py')],
                                      stdin=subprocess.PIPE, stdout=subprocess.PIPE, env=env)
 
     def send(self, recipe, request):
